@@ -97,31 +97,46 @@ impl Space for NameRule {
         if host == 1 && tdirs.iter().any(|d| d.is_existing()) {
             return ctx.reject(); // into_existing on enums: KF-C17-03
         }
-        // one or two member instructions (or none)
+        // one or two member instructions (or none); each is default or dedicated to T, and carries a name + expression,
+        // only an expression, or only a name
         let k = ctx.choose(3);
-        let mut ms: Vec<&str> = vec![];
+        let mut ms: Vec<(&str, bool, usize)> = vec![]; // (name, dedicated to T, form)
         for _ in 0..k {
             let m = mnames[ctx.choose(mnames.len())];
-            if ms.contains(&m) {
-                return ctx.reject();
-            }
-            ms.push(m);
+            let ded = ctx.flag();
+            let form = ctx.choose(3);
+            ms.push((m, ded, form));
         }
-        // two instructions must not compete for one (kind, fallibility) cell
+        // two instructions must not compete for one (kind, fallibility, dedication) cell
         let cells = |m: &str| { let (d, f) = appl(m).unwrap(); d.into_iter().map(move |x| (x, f)).collect::<Vec<_>>() };
-        if ms.len() == 2 && cells(ms[0]).iter().any(|c| cells(ms[1]).contains(c)) {
+        if ms.len() == 2 && ms[0].1 == ms[1].1 && cells(ms[0].0).iter().any(|c| cells(ms[1].0).contains(c)) {
             return ctx.reject();
         }
-        let cands: Vec<(usize, Vec<crate::model::Dir>, bool, Option<String>)> = ms.iter().enumerate().map(|(i, m)| { let (d, f) = appl(m).unwrap(); (i, d, f, None) }).collect();
-        let uncovered: Vec<String> = tdirs.iter().map(|d| Kind { dir: *d, fallible: tf }).filter(|k| winner(&cands, *k, "T").is_none()).map(|k| k.basic_name().to_string()).collect();
-        let attrs: String = ms.iter().map(|m| if crate::item::has_bare_form(m) { format!("#[{}(u, ~ + 1)] ", m) } else { format!("#[o2o({}(u, ~ + 1))] ", m) }).collect();
+        let cands: Vec<(usize, Vec<crate::model::Dir>, bool, Option<String>)> = ms.iter().enumerate().map(|(i, m)| { let (d, f) = appl(m.0).unwrap(); (i, d, f, if m.1 { Some("T".to_string()) } else { None }) }).collect();
+        // the instruction in effect for a kind must name the counterpart field (for From kinds an expression will do)
+        let uncovered: Vec<String> = tdirs
+            .iter()
+            .map(|d| Kind { dir: *d, fallible: tf })
+            .filter(|k| match winner(&cands, *k, "T") {
+                None => true,
+                Some(i) => !(ms[i].2 != 1 || k.dir.is_from()),
+            })
+            .map(|k| k.basic_name().to_string())
+            .collect();
+        let attrs: String = ms
+            .iter()
+            .map(|(m, ded, form)| {
+                let body = format!("{}{}", if *ded { "T| " } else { "" }, ["u, ~ + 1", "~ + 1", "u"][*form]);
+                if crate::item::has_bare_form(m) { format!("#[{}({})] ", m, body) } else { format!("#[o2o({}({}))] ", m, body) }
+            })
+            .collect();
         let er = if tf { ", Er" } else { "" };
         let input = if host == 0 {
             format!("#[{t}(T as {{}}{er})]\nstruct S({attrs}i32);\n")
         } else {
             format!("#[{t}(T{er})]\nenum S {{ #[type_hint(as {{}})] A({attrs}i32), B }}\n")
         };
-        let tags = vec![format!("host={}", ["tuple-struct", "tuple-variant"][host]), format!("trait={}", t), format!("members={}", ms.join("+")), format!("expect={}", if uncovered.is_empty() { "accept" } else { "reject" })];
+        let tags = vec![format!("host={}", ["tuple-struct", "tuple-variant"][host]), format!("trait={}", t), format!("members={}", ms.iter().map(|m| format!("{}{}/{}", m.0, if m.1 { "|T" } else { "" }, ["name+expr", "expr", "name"][m.2])).collect::<Vec<_>>().join("+")), format!("expect={}", if uncovered.is_empty() { "accept" } else { "reject" })];
         Some(NCase { input, uncovered, tags })
     }
     fn check(&self, c: NCase, choices: &[u32], rep: &Report) {
